@@ -1,7 +1,7 @@
 (** Dispatcher of the executable model: one input line -> one observation
     line, for the generated tables and for the specified tables. *)
 From Coq Require Import String.
-From PSA Require Import Base Lines Lifecycle Regex Claims Obs CaseClaims RunC14.
+From PSA Require Import Base Lines Lifecycle Regex Claims Obs CaseClaims RunC14 RunHist.
 From PSA.Spec Require Import SpecTables.
 From PSA.Gen Require Import GenConsts.
 Open Scope N_scope.
@@ -11,6 +11,9 @@ Definition run_line (cfg : ccfg) (line : bytes) : bytes :=
   | p :: args =>
       if bytes_eqb p (s2b "C14") then run_c14 cfg args
       else if bytes_eqb p (s2b "C01") then run_c01 cfg args
+      else if bytes_eqb p (s2b "HIST") then run_hist cfg args
+      else if bytes_eqb p (s2b "HISTC") then run_histc cfg args
+      else if bytes_eqb p (s2b "FILT") then run_filt args
       else bad_input
   | [] => bad_input
   end.
